@@ -67,8 +67,14 @@ def case_strategy(draw, tier="quick"):
     # start() is propagated upstream from any node and must be harmless on a running pipeline
     starts = sorted(draw(st.sets(st.integers(0, max(len(acts) - 1, 0)), max_size=2))) \
         if draw(st.integers(0, 2)) == 0 else []
+    # deliveries in which the consumer raises: the failure goes back to the producer of that
+    # element; spacing and order of all deliveries (failed ones are deliveries too) stay as they are
+    fail = sorted(draw(st.sets(st.integers(0, 8), min_size=1, max_size=2))) \
+        if kind == "rate_limit" and draw(st.integers(0, 3)) == 0 else []
+    # (rate_limit only: delay forwards from one long-lived coroutine, which a raising consumer
+    # ends - the "worker dies" observation of DESIGN 8.5, outside C13)
     return {"spec": spec, "cmodes": {str(len(nodes) - 1): mode}, "actions": acts,
-            "detach": detach, "starts": starts}
+            "detach": detach, "starts": starts, "fail": fail}
 
 
 def execute(case):
@@ -91,7 +97,8 @@ def execute(case):
                 up.connect(n)
             if k in starts:
                 built.nodes[sink].start()
-    run = schedule.execute(case, consumer_modes=cm, step_hook=step_hook)
+    run = schedule.execute(case, consumer_modes=cm, step_hook=step_hook,
+                           faults={sink: set(case.get("fail", []))} if case.get("fail") else None)
     ev = run.log.events
     kind = nodes[node]["k"]
     iv = nodes[node]["p"]["i"]
@@ -128,6 +135,7 @@ def execute(case):
     idle_gap = any(b - a >= iv for a, b in zip(times, times[1:]))
     burst = any(times.count(t) >= 3 for t in set(times))
     classes = (["detach-reattach"] if case.get("detach") else []) + \
+        (["failing-deliveries"] if case.get("fail") else []) + \
         ["node:" + kind, "consumer:" + list(cm.values())[0], "entries:%d" % (
         len([n for n in nodes if n["k"] == "entry"]))]
     if idle_gap:
